@@ -5,10 +5,10 @@
    (2) model theorems over the regenerated Model methods: every value offered by a commit stays covered by
        min(incumbent, saved) along every admissible history, and the final-result query returns a value at least as
        good as everything covered;  (3) the hard-restart merge keeps the better result. *)
-From Coq Require Import ZArith List Bool String Lia.
-Require Import DV.Base.Prelude DV.Base.F64 DV.Base.OrdLaws DV.Spec.Schema DV.Lib.MSpec DV.Lib.MBook DV.Lib.Tables.
+From Coq Require Import ZArith List Bool String Lia Reals.
+Require Import DV.Base.Prelude DV.Base.F64 DV.Base.OrdLaws DV.Spec.Schema DV.Lib.MSpec DV.Lib.MBook DV.Lib.MDyk DV.Lib.Tables.
 From G Require Import Gen_util Gen_model Gen_tables.
-From P Require Import Char_model C17.
+From P Require Import Char_model C17 Slots.
 Import ListNotations.
 Open Scope Z_scope.
 Open Scope string_scope.
@@ -62,6 +62,11 @@ Definition incumbent_saved_before_restart : bool :=
 Theorem C04_incumbent_saved_before_soft_restart : incumbent_saved_before_restart = true.
 Proof. vm_compute. reflexivity. Qed.
 
+(* ---- (1b) the slot a commit overwrites is not the incumbent's: P.Slots, checked on the same regenerated tables ---- *)
+Theorem C04_overwritten_slot_is_not_the_incumbent :
+  change_sites_ok && growing_slot_ok && tr_slot_ok && chooser_skips_incumbent && geometry_callers_ok && distances_read_clipped_points = true.
+Proof. exact Slots_overwritten_slot_is_not_the_incumbent. Qed.
+
 (* ---- (3) hard-restart merge: the new run's result replaces the old one only if strictly better, or the old is NaN ---- *)
 Definition merge_guard_ok : bool :=
   forallb (fun a => has_guard (a_guards a) true "objmin2 < objmin or np.isnan(objmin)")
@@ -98,12 +103,22 @@ Proof.
   eapply C04_final_no_worse_than_covered; [|exact Hf].
   destruct Hw as [Hw| ->]; [apply Hnew; exact Hw|]. apply Hkeep. left. apply noworse_refl.
 Qed.
+(* the furthest point is not the incumbent: the incumbent is at distance zero, the threshold is non-negative *)
+Theorem C04_furthest_point_is_not_the_incumbent : forall (ds : list T) (kopt knew : nat) thresh,
+  nth kopt ds zero = zero -> le zero thresh = true -> le (nth knew ds zero) thresh = false -> knew <> kopt.
+Proof. intros ds kopt knew thresh H0 Ht Hk ->. rewrite H0 in Hk. congruence. Qed.
 End C04.
+(* over the reals: the squared distance of a point to itself, as distances_to_xopt computes it, is zero *)
+Lemma C04_distance_to_self_is_zero : forall x : list R, MDyk.ssq (MDyk.vsub x x) = 0%R.
+Proof. induction x as [|a x IH]; cbn; [reflexivity|]. unfold MDyk.vsub in IH. rewrite IH. ring. Qed.
 
 Print Assumptions C04_every_region_commits.
 Print Assumptions C04_every_eval_site_is_tabled.
 Print Assumptions C04_every_path_commits.
 Print Assumptions C04_single_choke_point.
 Print Assumptions C04_merge_is_guarded.
+Print Assumptions C04_overwritten_slot_is_not_the_incumbent.
+Print Assumptions C04_furthest_point_is_not_the_incumbent.
+Print Assumptions C04_distance_to_self_is_zero.
 Print Assumptions C04_merge_keeps_better.
 Print Assumptions C04_returned_objective_is_best.
